@@ -260,6 +260,9 @@ def _on_invalid_edge(f, ev):
         if not t or len(b['succ']) != 2:
             continue
         c = cf.strip_casts(t.get('cond'))
+        # `if (run_check && is_job_invalid(...))`: the terminator of the block that evaluates the last operand carries the whole condition
+        while isinstance(c, dict) and c.get('k') == 'bin' and c['op'] == '&&':
+            c = cf.strip_casts(c['r'])
         if not isinstance(c, dict):
             continue
         succ = None
